@@ -16,14 +16,18 @@ pub fn new_writer(path: &Path) -> std::io::Result<ShmWriter> {
         unsafe { libc::close(probe) };
     }
     let w = ShmWriter::new(path)?;
+    // the path may end in a symbolic link: /proc/self/fd shows the resolved name
+    let canonical = std::fs::canonicalize(path).ok();
     if probe >= 0 {
-        for fd in probe..probe + 24 {
+        // other threads of the harness open and close descriptors concurrently, so the leaked one is
+        // looked for in a generous window around the lowest free descriptor
+        for fd in 3..probe + 96 {
             let fl = unsafe { libc::fcntl(fd, libc::F_GETFL) };
             if fl < 0 || (fl & libc::O_ACCMODE) != libc::O_RDWR {
                 continue;
             }
             if let Ok(target) = std::fs::read_link(format!("/proc/self/fd/{}", fd)) {
-                if target == path {
+                if target == path || Some(&target) == canonical.as_ref() {
                     unsafe { libc::close(fd) };
                     break;
                 }
